@@ -93,8 +93,9 @@ def run_sequence(ctx, kind, classes, seq, rng, model_lines, model_meta):
                 evs += pushed
             cf = script.get("connect_fault")
             sfk = script.get("send_fault")
+            from clientlib import SOCK_CODES
             line = (f"call {cfg_tok(dnr=False)} open={int(open_before)} {call_tokens(call)} "
-                    f"cf={'x3' if cf and cf[1] == 'refused' else 'x5' if cf else '-'} sf={'x' + str({'pipe': 4, 'reset': 2, 'timeout': 1}[sfk]) if sfk else '-'} {ev_tokens(evs)}")
+                    f"cf={'x' + str(SOCK_CODES[cf[1]]) if cf else '-'} sf={'x' + str(SOCK_CODES[sfk]) if sfk else '-'} {ev_tokens(evs)}")
             sock_open = obj.sock is not None
             unread = W.leftover(obj.sock) if sock_open else None
             sent = b"".join(d for t, d in sum((c.sent for c in W.conns), []) if t == n)
